@@ -868,6 +868,52 @@ DeclBatched ==
      /\ Cat(Len(Yields)) = flat
      /\ \A j \in 1..(Len(Yields) - 1) : Len(Yields[j].v) = cfg.par.n
 
+\* ... and of the one-source tools whose result is a selection or a transformation of the input
+Src1 == [j \in 1..Len(cfg.data[1]) |-> Item(1, j)]
+YV == [j \in 1..Len(Yields) |-> Yields[j].v]
+PredOf(x) == Apply("pred", <<x>>)
+\* length of the longest prefix of q on which P holds
+RECURSIVE PrefixLen(_, _, _)
+PrefixLen(q, P(_), j) == IF j > Len(q) \/ ~P(q[j]) THEN j - 1 ELSE PrefixLen(q, P, j + 1)
+DeclFilter ==
+  (cfg.tool \in {"filter", "filterfalse"} /\ Exhausted) =>
+     LET Keep(x) == (IF cfg.par.pred THEN PredOf(x) ELSE Truthy(x)) = (cfg.tool = "filter") IN
+     YV = SelectSeq(Src1, Keep)
+DeclMap ==
+  (cfg.tool = "map" /\ Exhausted) =>
+     LET m == CHOOSE m \in 0..MaxLen : (\A i \in 1..NSrc : Len(cfg.data[i]) >= m) /\ (\E i \in 1..NSrc : Len(cfg.data[i]) = m) IN
+     YV = [j \in 1..m |-> Apply("func", [i \in 1..NSrc |-> Item(i, j)])]
+DeclStarMap ==
+  (cfg.tool = "starmap" /\ Exhausted) => YV = [j \in 1..Len(Src1) |-> Apply("func", <<Src1[j], Src1[j]>>)]
+DeclEnumerate ==
+  (cfg.tool = "enumerate" /\ Exhausted) => YV = [j \in 1..Len(Src1) |-> <<cfg.par.start + j - 1, Src1[j]>>]
+DeclTakeDrop ==
+  (cfg.tool \in {"takewhile", "dropwhile"} /\ Exhausted) =>
+     LET n == PrefixLen(Src1, PredOf, 1) IN
+     YV = IF cfg.tool = "takewhile" THEN SubSeq(Src1, 1, n) ELSE SubSeq(Src1, n + 1, Len(Src1))
+DeclCompress ==
+  (cfg.tool = "compress" /\ Exhausted) =>
+     LET m == IF Len(cfg.data[1]) < Len(cfg.data[2]) THEN Len(cfg.data[1]) ELSE Len(cfg.data[2])
+         idx == {j \in 1..m : cfg.data[2][j] # 0} IN
+     /\ Len(YV) = Cardinality(idx)
+     /\ \A j \in 1..Len(YV) : YV[j].s = 1 /\ YV[j].p \in idx
+     /\ \A j \in 1..(Len(YV) - 1) : YV[j].p < YV[j + 1].p
+DeclAccumulate ==
+  (cfg.tool = "accumulate" /\ Exhausted) =>
+     LET F(a, b) == IF cfg.par.fn = "add" THEN Node("add", <<a, b>>) ELSE Apply("func", <<a, b>>)
+         all == IF cfg.par.init THEN <<Node("initial", <<>>)>> \o Src1 ELSE Src1
+         RECURSIVE Acc(_)
+         Acc(j) == IF j = 1 THEN all[1] ELSE F(Acc(j - 1), all[j]) IN
+     YV = [j \in 1..Len(all) |-> Acc(j)]
+\* cycle never ends: whatever was delivered is a prefix of the input repeated
+DeclCycle ==
+  (cfg.tool = "cycle" /\ Len(Src1) > 0) =>
+     \A j \in 1..Len(YV) : YV[j] = Src1[((j - 1) % Len(Src1)) + 1]
+DeclZipLongest ==
+  (cfg.tool = "zip_longest" /\ Exhausted /\ NSrc > 0) =>
+     LET m == CHOOSE m \in 0..MaxLen : (\A i \in 1..NSrc : Len(cfg.data[i]) <= m) /\ (\E i \in 1..NSrc : Len(cfg.data[i]) = m) IN
+     YV = [j \in 1..m |-> [i \in 1..NSrc |-> IF j <= Len(cfg.data[i]) THEN Item(i, j) ELSE Fill]]
+
 \* every case is written once, when the machine is done
 Emit == (Done /\ OutFile # "") =>
           CSVWrite("%1$s", <<ToJson([cfg |-> cfg, log |-> log, nnext |-> nnext,
